@@ -41,9 +41,15 @@ def const_payload(value):
     return (type(value).__name__, repr(value))
 
 
-def sig(node):
+class Cyclic(Exception):
+    """the links do not form a tree (a node is its own descendant)"""
+
+
+def sig(node, _depth=0):
     if node is None:
         return None
+    if _depth > 400:
+        raise Cyclic("links nest deeper than 400 levels")
     tag = TAGS.get(type(node).__name__, type(node).__name__)
     if tag == "c":
         payload = const_payload(node.value)
@@ -53,7 +59,7 @@ def sig(node):
         payload = bool(node.child_on_left)
     else:
         payload = None
-    return (tag, payload, sig(node.left), sig(node.right))
+    return (tag, payload, sig(node.left, _depth + 1), sig(node.right, _depth + 1))
 
 
 def const_value(payload):
